@@ -145,6 +145,7 @@ def c02(v):
 def c03(v):
     V = []
     if "hang" in v.res and (admissible(v.sc) or v.sc["tree"].get("T") is not None):
+        # (a scheduler with a timeout terminates whatever its jobs do, provided they honour cancellation)
         V.append("C03 run() does not terminate (%s) on a scenario that can finish" % v.res["hang"])
     return V
 
@@ -260,6 +261,11 @@ def exit_cause_positions(v, s):
     if finite and all(c in v.fin for c in finite):
         last = max(v.fin[c] for c in finite)
         out.append((last[0], last[1], "success"))
+    if not finite:
+        # a scheduler whose jobs are all forever ends (successfully) at the first completion of one of them
+        firsts = sorted(v.fin[c["name"]] for c in kids if c["name"] in v.fin)
+        if firsts:
+            out.append((firsts[0][0], firsts[0][1], "success"))
     if s in v.stop and v.stop[s][2] == "rcancel":
         out.append((v.stop[s][0], v.stop[s][1], "cancelled"))
     return sorted(out)
@@ -411,7 +417,7 @@ def c08(v):
             continue
         if ended[1] > end_bound(v, s, dl, late):
             V.append("C08 run of %s ended at t=%d, later than cancellations + shutdown_timeout after the expiry at t=%d" % (s, ended[1], dl))
-        if not at and ended[2] != "rcancel" and finite:
+        if not at and ended[2] != "rcancel" and v.children[s]:
             pure = bool(v.info[s].get("pure"))
             critical = v.info[s]["crit"] and not pure
             if critical:
@@ -457,6 +463,27 @@ def c09(v):
                 V.append("C09 run of %s ended at t=%d although its last regular job finished at t=%d" % (s, v.stop[s][1], tl))
             if f is not None and v.stop[s][2] != "rcancel" and not (f[2] == "rret" and f[3] is True):
                 V.append("C09 %s did not report success when its last regular job finished: %s" % (s, f[2:]))
+    return V
+
+
+def c09_no_early_cancel(v):
+    """until the run has a reason to end, forever jobs are treated like any job: none is cancelled"""
+    V = []
+    for s in v.began:
+        if not v.is_sched(s):
+            continue
+        b, f, T, kids, finite = sched_facts(v, s)
+        if not finite:
+            continue
+        causes = exit_cause_positions(v, s)
+        t_cause = min([c[1] for c in causes] + ([b + T] if T is not None else []) + [INF])
+        # a cancellation of s itself (by its parent) is a reason too: it is logged as `cancel s`
+        if s in v.cancel:
+            t_cause = min(t_cause, v.cancel[s][1])
+        for c in kids:
+            if c["forever"] and c["name"] in v.cancel and v.cancel[c["name"]][1] < t_cause:
+                V.append("C09 forever job %s of %s cancelled at t=%d although the run had no reason to end before t=%s"
+                         % (c["name"], s, v.cancel[c["name"]][1], t_cause if t_cause < INF else "never"))
     return V
 
 
@@ -688,7 +715,8 @@ def c14(v):
     return V
 
 
-SINGLE = {"C01": c01, "C02": c02, "C03": c03, "C04": c04, "C05": c05, "C07": c07, "C08": c08, "C09": c09,
+SINGLE = {"C01": c01, "C02": c02, "C03": c03, "C04": c04, "C05": c05, "C07": c07, "C08": c08,
+          "C09": lambda v: c09(v) + c09_no_early_cancel(v),
           "C10": c10_single, "C11": c11, "C12": c12, "C13": c13, "C14": c14}
 
 
